@@ -569,10 +569,15 @@ fn random_param(r: &mut impl Rng, for_cal: bool) -> Value {
 
 fn random_gate_like(r: &mut impl Rng, for_cal: bool) -> Value {
     let name = ["X", "RX", "CZ"].choose(r).unwrap();
-    let mods: Vec<&str> = match r.gen_range(0..6) {
+    // modifier lists of length 0..3 over two modifiers, in both orders and with different multiplicities
+    let mods: Vec<&str> = match r.gen_range(0..12) {
         0 => vec!["DAGGER"],
         1 => vec!["DAGGER", "DAGGER"],
         2 => vec!["CONTROLLED"],
+        3 => vec!["DAGGER", "CONTROLLED"],
+        4 => vec!["CONTROLLED", "DAGGER"],
+        5 => vec!["DAGGER", "DAGGER", "CONTROLLED"],
+        6 => vec!["DAGGER", "CONTROLLED", "CONTROLLED"],
         _ => vec![],
     };
     let np = r.gen_range(0..3);
@@ -617,7 +622,20 @@ fn random_query(r: &mut impl Rng, kind: &str, hist: &[Value]) -> Value {
                 .iter()
                 .map(|p| if p["t"] == "var" || r.gen_bool(0.2) { random_param(r, false) } else { p.clone() })
                 .collect();
-            json!({"name": d["name"], "mods": d["mods"], "params": params, "qubits": qubits})
+            // now and then the same modifiers / arguments / qubits in another order (must not match, or must
+            // bind positionally)
+            let mut mods: Vec<Value> = d["mods"].as_array().cloned().unwrap_or_default();
+            let (mut params, mut qubits) = (params, qubits);
+            if r.gen_bool(0.25) {
+                mods.reverse();
+            }
+            if r.gen_bool(0.15) {
+                params.reverse();
+            }
+            if r.gen_bool(0.15) {
+                qubits.reverse();
+            }
+            json!({"name": d["name"], "mods": mods, "params": params, "qubits": qubits})
         } else {
             random_gate_like(r, false)
         };
